@@ -6,6 +6,7 @@ import EdbVerif.Model.DescSpec
 import EdbVerif.Lemmas.DescWire
 
 namespace EdbVerif.Desc
+variable {dn : Option (Id → Bytes)}
 
 /-! ### sizes and sub-descriptors -/
 
@@ -79,23 +80,25 @@ theorem size_lt_of_mem_kids {h : Hdr} {pre post : List Desc} {u : Desc}
 end EdbVerif.Desc
 
 namespace EdbVerif.Desc
+variable {dn : Option (Id → Bytes)}
 
 /-! ### what `enc` does to the table, unconditionally -/
 
 /-- the last step of `enc`: `_finish_typedesc` + `_register_type_id` -/
-def emit (p : Proto) (s2 : St) (h : Hdr) (pre post : List Desc) : St :=
+def emit (p : Proto) (dn : Option (Id → Bytes)) (s2 : St) (h : Hdr) (pre post : List Desc) : St :=
   { tbl := if s2.tbl.contains h.id then s2.tbl else s2.tbl ++ [h.id],
-    buf := s2.buf ++ block p ⟨h, pre.map (fun c => pos s2.tbl c.id), post.map (fun c => pos s2.tbl c.id)⟩ }
+    buf := s2.buf ++ block p ⟨h, pre.map (fun c => pos s2.tbl c.id), post.map (fun c => pos s2.tbl c.id)⟩,
+    ann := annStep p dn h s2.ann }
 
 theorem enc_mk (p : Proto) (s : St) (h : Hdr) (pre post : List Desc) :
-    enc p s (.mk h pre post) =
-      if (encL p s pre).tbl.contains h.id then encL p s pre
-      else emit p (encL p (encL p s pre) post) h pre post := by
+    enc p dn s (.mk h pre post) =
+      if (encL p dn s pre).tbl.contains h.id then encL p dn s pre
+      else emit p dn (encL p dn (encL p dn s pre) post) h pre post := by
   rw [enc]; rfl
 
-theorem encL_nil (p : Proto) (s : St) : encL p s [] = s := by rw [encL]
+theorem encL_nil (p : Proto) (s : St) : encL p dn s [] = s := by rw [encL]
 theorem encL_cons (p : Proto) (s : St) (d : Desc) (ds : List Desc) :
-    encL p s (d :: ds) = encL p (enc p s d) ds := by rw [encL]
+    encL p dn s (d :: ds) = encL p dn (enc p dn s d) ds := by rw [encL]
 
 /-- the table only grows, by ids of descriptors in `D` -/
 def Grows (s s' : St) (D : List Desc) : Prop :=
@@ -121,17 +124,17 @@ theorem Grows.len {s s' : St} {D : List Desc} (h : Grows s s' D) : s.tbl.length 
   obtain ⟨e, he, _⟩ := h; rw [he, List.length_append]; omega
 
 mutual
-theorem enc_grows (p : Proto) : ∀ (d : Desc) (s : St), Grows s (enc p s d) (subs d)
+theorem enc_grows (p : Proto) : ∀ (d : Desc) (s : St), Grows s (enc p dn s d) (subs d)
   | .mk h pre post, s => by
     rw [enc_mk, subs_mk]
     have g1 := encL_grows p pre s
     split
     · exact g1.trans (Grows.refl _ []) (fun u hu => List.mem_cons_of_mem _ (List.mem_append_left _ hu))
         (fun u hu => by cases hu)
-    · have g2 := encL_grows p post (encL p s pre)
-      have g12 : Grows s (encL p (encL p s pre) post) (subsL pre ++ subsL post) :=
+    · have g2 := encL_grows p post (encL p dn s pre)
+      have g12 : Grows s (encL p dn (encL p dn s pre) post) (subsL pre ++ subsL post) :=
         g1.trans g2 (fun u hu => List.mem_append_left _ hu) (fun u hu => List.mem_append_right _ hu)
-      have g3 : Grows (encL p (encL p s pre) post) (emit p (encL p (encL p s pre) post) h pre post)
+      have g3 : Grows (encL p dn (encL p dn s pre) post) (emit p dn (encL p dn (encL p dn s pre) post) h pre post)
           [.mk h pre post] := by
         unfold emit
         split
@@ -139,7 +142,7 @@ theorem enc_grows (p : Proto) : ∀ (d : Desc) (s : St), Grows s (enc p s d) (su
         · exact ⟨[h.id], rfl, by simp [Desc.id, Desc.hdr]⟩
       exact g12.trans g3 (fun u hu => List.mem_cons_of_mem _ hu)
         (fun u hu => by rw [List.mem_singleton.mp hu]; exact List.mem_cons_self)
-theorem encL_grows (p : Proto) : ∀ (ds : List Desc) (s : St), Grows s (encL p s ds) (subsL ds)
+theorem encL_grows (p : Proto) : ∀ (ds : List Desc) (s : St), Grows s (encL p dn s ds) (subsL ds)
   | [], s => by rw [encL_nil]; exact Grows.refl _ _
   | d :: ds, s => by
     rw [encL_cons, subsL]
@@ -147,7 +150,7 @@ theorem encL_grows (p : Proto) : ∀ (ds : List Desc) (s : St), Grows s (encL p 
       (fun u hu => List.mem_append_right _ hu)
 end
 
-theorem enc_mem (p : Proto) (d : Desc) (s : St) : d.id ∈ (enc p s d).tbl := by
+theorem enc_mem (p : Proto) (d : Desc) (s : St) : d.id ∈ (enc p dn s d).tbl := by
   cases d with | mk h pre post =>
   rw [enc_mk]
   split
@@ -157,25 +160,26 @@ theorem enc_mem (p : Proto) (d : Desc) (s : St) : d.id ∈ (enc p s d).tbl := by
     · rename_i hc; simpa [Desc.id, Desc.hdr] using hc
     · simp [Desc.id, Desc.hdr]
 
-theorem encL_mem (p : Proto) : ∀ (ds : List Desc) (s : St), ∀ k ∈ ds, k.id ∈ (encL p s ds).tbl
+theorem encL_mem (p : Proto) : ∀ (ds : List Desc) (s : St), ∀ k ∈ ds, k.id ∈ (encL p dn s ds).tbl
   | [], _, k, hk => by cases hk
   | d :: ds, s, k, hk => by
     rw [encL_cons]
     rcases List.mem_cons.mp hk with rfl | hk
-    · exact (encL_grows p ds _).mem (enc_mem p k s)
+    · exact (encL_grows (dn := dn) p ds _).mem (enc_mem p k s)
     · exact encL_mem p ds _ k hk
 end EdbVerif.Desc
 
 namespace EdbVerif.Desc
+variable {dn : Option (Id → Bytes)}
 
 /-! ### the decoder loop -/
 
-theorem decodeAll_nil (p : Proto) (cl : List Desc) : decodeAll p cl [] = some cl := by
+theorem decodeAll_nil (m : Mode) (p : Proto) (st : DSt) : decodeAll m p st [] = some st := by
   rw [decodeAll]; rfl
 
-theorem decodeAll_block {p : Proto} {cl cl' : List Desc} {B rest : Bytes}
-    (h : parseBlock p cl (B ++ rest) = some (cl', rest)) (hB : B ≠ []) :
-    decodeAll p cl (B ++ rest) = decodeAll p cl' rest := by
+theorem decodeAll_block {m : Mode} {p : Proto} {cl cl' : DSt} {B rest : Bytes}
+    (h : parseBlock m p cl (B ++ rest) = some (cl', rest)) (hB : B ≠ []) :
+    decodeAll m p cl (B ++ rest) = decodeAll m p cl' rest := by
   rw [decodeAll]
   have hne : (B ++ rest).isEmpty = false := by
     cases B with
@@ -227,26 +231,27 @@ theorem block_ne_nil (p : Proto) (f : Flat) : block p f ≠ [] := by
 end EdbVerif.Desc
 
 namespace EdbVerif.Desc
+variable {dn : Option (Id → Bytes)}
 
 /-! ### the invariant: the buffer decodes to the table, position by position -/
 
 /-- `c` maps an id to THE descriptor with that id.  The stream emitted so far
     decodes (from an empty `codecs_list`) to exactly the descriptors of the
     registered ids, in registration order. -/
-def Inv (c : Id → Desc) (p : Proto) (s : St) : Prop :=
-  ∀ rest, decodeAll p [] (s.buf ++ rest) = decodeAll p (s.tbl.map c) rest
+def Inv (m : Mode) (c : Id → Desc) (p : Proto) (s : St) : Prop :=
+  ∀ rest, decodeAll m p {} (s.buf ++ rest) = decodeAll m p ⟨s.tbl.map c, []⟩ rest
 
 theorem emit_tbl_len (p : Proto) (s2 : St) (h : Hdr) (pre post : List Desc) :
-    s2.tbl.length ≤ (emit p s2 h pre post).tbl.length := by
+    s2.tbl.length ≤ (emit p dn s2 h pre post).tbl.length := by
   unfold emit; dsimp only; split <;> simp
 
-theorem emit_inv (c : Id → Desc) (p : Proto) (s2 : St) (h : Hdr) (pre post : List Desc)
-    (hinv : Inv c p s2)
-    (hok : hdrOK p h pre.length post.length = true) (hsql : ∀ n, h.kind ≠ .sqlRow n)
+theorem emit_inv (m : Mode) (c : Id → Desc) (p : Proto) (s2 : St) (h : Hdr) (pre post : List Desc)
+    (hinv : Inv m c p s2)
+    (hok : hdrOK p h pre.length post.length = true) (hsql : m = .doc ∨ ∀ n, h.kind ≠ .sqlRow n)
     (hpre : ∀ k ∈ pre, k.id ∈ s2.tbl ∧ c k.id = k)
     (hpost : ∀ k ∈ post, k.id ∈ s2.tbl ∧ c k.id = k)
     (hlen : s2.tbl.length ≤ 65536) (hnew : h.id ∉ s2.tbl) (hc : c h.id = .mk h pre post) :
-    Inv c p (emit p s2 h pre post) := by
+    Inv m c p (emit p dn s2 h pre post) := by
   intro rest
   have hcont : s2.tbl.contains h.id = false := by
     simpa using hnew
@@ -263,7 +268,7 @@ theorem emit_inv (c : Id → Desc) (p : Proto) (s2 : St) (h : Hdr) (pre post : L
     obtain ⟨k, hk, rfl⟩ := List.mem_map.mp hr
     have : pos s2.tbl k.id < s2.tbl.length := List.idxOf_lt_length_of_mem (hl k hk).1
     omega
-  have hflat := parseFlat_block p f rest
+  have hflat := parseFlat_block m p f rest
     (by rw [hfh, hfpre, hfpost, List.length_map, List.length_map]; exact hok)
     (by rw [hfh]; exact hsql)
     (by rw [hfpre]; exact hposlt pre hpre) (by rw [hfpost]; exact hposlt post hpost)
@@ -283,8 +288,8 @@ theorem emit_inv (c : Id → Desc) (p : Proto) (s2 : St) (h : Hdr) (pre post : L
         cases hk
     · exact ⟨[], rfl⟩
   obtain ⟨lchk, hchk⟩ := hchk
-  have hblock : parseBlock p (s2.tbl.map c) (block p f ++ rest) =
-      some ((s2.tbl ++ [h.id]).map c, rest) := by
+  have hblock : parseBlock m p ⟨s2.tbl.map c, []⟩ (block p f ++ rest) =
+      some (⟨(s2.tbl ++ [h.id]).map c, []⟩, rest) := by
     unfold parseBlock
     simp only [hflat]
     rw [hfpre, hfpost, resolve_map c s2.tbl pre hpre, resolve_map c s2.tbl post hpost, hchk]
@@ -294,6 +299,7 @@ theorem emit_inv (c : Id → Desc) (p : Proto) (s2 : St) (h : Hdr) (pre post : L
 end EdbVerif.Desc
 
 namespace EdbVerif.Desc
+variable {dn : Option (Id → Bytes)}
 
 theorem nodesOK_mk {p : Proto} {h : Hdr} {pre post : List Desc} (hn : nodesOK p (.mk h pre post) = true) :
     hdrOK p h pre.length post.length = true ∧ nodesOKL p pre = true ∧ nodesOKL p post = true := by
@@ -306,9 +312,10 @@ theorem nodesOKL_cons {p : Proto} {d : Desc} {ds : List Desc} (hn : nodesOKL p (
   simpa [Bool.and_eq_true] using hn
 
 mutual
-theorem enc_inv (c : Id → Desc) (p : Proto) : ∀ (d : Desc) (s : St), Inv c p s →
-    (∀ u ∈ subs d, c u.id = u) → nodesOK p d = true → (∀ u ∈ subs d, ∀ n, u.hdr.kind ≠ .sqlRow n) →
-    (enc p s d).tbl.length ≤ 65536 → Inv c p (enc p s d)
+theorem enc_inv (m : Mode) (c : Id → Desc) (p : Proto) : ∀ (d : Desc) (s : St), Inv m c p s →
+    (∀ u ∈ subs d, c u.id = u) → nodesOK p d = true →
+    (∀ u ∈ subs d, m = .doc ∨ ∀ n, u.hdr.kind ≠ .sqlRow n) →
+    (enc p dn s d).tbl.length ≤ 65536 → Inv m c p (enc p dn s d)
   | .mk h pre post, s, hinv, hc, hn, hsql, hlen => by
     obtain ⟨hok, hnpre, hnpost⟩ := nodesOK_mk hn
     rw [subs_mk] at hc hsql
@@ -322,19 +329,19 @@ theorem enc_inv (c : Id → Desc) (p : Proto) : ∀ (d : Desc) (s : St), Inv c p
     split at hlen
     · rename_i hcont
       rw [if_pos hcont]
-      exact encL_inv c p pre s hinv hcpre hnpre
+      exact encL_inv m c p pre s hinv hcpre hnpre
         (fun u hu => hsql u (List.mem_cons_of_mem _ (List.mem_append_left _ hu))) hlen
     · rename_i hcont
       rw [if_neg hcont]
-      have g2 := encL_grows p post (encL p s pre)
-      have hl2 : (encL p (encL p s pre) post).tbl.length ≤ 65536 :=
+      have g2 := encL_grows (dn := dn) p post (encL p dn s pre)
+      have hl2 : (encL p dn (encL p dn s pre) post).tbl.length ≤ 65536 :=
         Nat.le_trans (emit_tbl_len p _ h pre post) hlen
-      have hl1 : (encL p s pre).tbl.length ≤ 65536 := Nat.le_trans g2.len hl2
-      have i1 := encL_inv c p pre s hinv hcpre hnpre
+      have hl1 : (encL p dn s pre).tbl.length ≤ 65536 := Nat.le_trans g2.len hl2
+      have i1 := encL_inv m c p pre s hinv hcpre hnpre
         (fun u hu => hsql u (List.mem_cons_of_mem _ (List.mem_append_left _ hu))) hl1
-      have i2 := encL_inv c p post _ i1 hcpost hnpost
+      have i2 := encL_inv m c p post _ i1 hcpost hnpost
         (fun u hu => hsql u (List.mem_cons_of_mem _ (List.mem_append_right _ hu))) hl2
-      refine emit_inv c p _ h pre post i2 hok hsqlself ?_ ?_ hl2 ?_ hself
+      refine emit_inv m c p _ h pre post i2 hok hsqlself ?_ ?_ hl2 ?_ hself
       · intro k hk
         exact ⟨g2.mem (encL_mem p pre s k hk), hcpre k (mem_subsL_of_mem hk (self_mem_subs k))⟩
       · intro k hk
@@ -352,25 +359,26 @@ theorem enc_inv (c : Id → Desc) (p : Proto) : ∀ (d : Desc) (s : St), Inv c p
             (List.mem_append_right _ hu)
           rw [h2] at this
           exact Nat.lt_irrefl _ this
-theorem encL_inv (c : Id → Desc) (p : Proto) : ∀ (ds : List Desc) (s : St), Inv c p s →
+theorem encL_inv (m : Mode) (c : Id → Desc) (p : Proto) : ∀ (ds : List Desc) (s : St), Inv m c p s →
     (∀ u ∈ subsL ds, c u.id = u) → nodesOKL p ds = true →
-    (∀ u ∈ subsL ds, ∀ n, u.hdr.kind ≠ .sqlRow n) →
-    (encL p s ds).tbl.length ≤ 65536 → Inv c p (encL p s ds)
+    (∀ u ∈ subsL ds, m = .doc ∨ ∀ n, u.hdr.kind ≠ .sqlRow n) →
+    (encL p dn s ds).tbl.length ≤ 65536 → Inv m c p (encL p dn s ds)
   | [], s, hinv, _, _, _, _ => by rw [encL_nil]; exact hinv
   | d :: ds, s, hinv, hc, hn, hsql, hlen => by
     obtain ⟨hnd, hnds⟩ := nodesOKL_cons hn
     rw [subsL] at hc hsql
     rw [encL_cons] at hlen ⊢
-    have hl1 : (enc p s d).tbl.length ≤ 65536 := Nat.le_trans (encL_grows p ds _).len hlen
-    have i1 := enc_inv c p d s hinv (fun u hu => hc u (List.mem_append_left _ hu)) hnd
+    have hl1 : (enc p dn s d).tbl.length ≤ 65536 := Nat.le_trans (encL_grows (dn := dn) p ds _).len hlen
+    have i1 := enc_inv m c p d s hinv (fun u hu => hc u (List.mem_append_left _ hu)) hnd
       (fun u hu => hsql u (List.mem_append_left _ hu)) hl1
-    exact encL_inv c p ds _ i1 (fun u hu => hc u (List.mem_append_right _ hu)) hnds
+    exact encL_inv m c p ds _ i1 (fun u hu => hc u (List.mem_append_right _ hu)) hnds
       (fun u hu => hsql u (List.mem_append_right _ hu)) hlen
 end
 
 end EdbVerif.Desc
 
 namespace EdbVerif.Desc
+variable {dn : Option (Id → Bytes)}
 
 /-! ### the canonical descriptor of an id, from `IdFaithful` -/
 
@@ -411,53 +419,182 @@ theorem fresh_of_grows {c : Id → Desc} {h : Hdr} {pre post : List Desc} {s s' 
 /-- a descriptor whose id is not yet registered is emitted LAST -/
 theorem enc_tbl_fresh (c : Id → Desc) (p : Proto) (h : Hdr) (pre post : List Desc) (s : St)
     (hc : ∀ u ∈ subs (.mk h pre post), c u.id = u) (hnew : h.id ∉ s.tbl) :
-    (enc p s (.mk h pre post)).tbl = (encL p (encL p s pre) post).tbl ++ [h.id] := by
-  have g1 := encL_grows p pre s
-  have g2 := encL_grows p post (encL p s pre)
-  have hn1 : h.id ∉ (encL p s pre).tbl :=
+    (enc p dn s (.mk h pre post)).tbl = (encL p dn (encL p dn s pre) post).tbl ++ [h.id] := by
+  have g1 := encL_grows (dn := dn) p pre s
+  have g2 := encL_grows (dn := dn) p post (encL p dn s pre)
+  have hn1 : h.id ∉ (encL p dn s pre).tbl :=
     fresh_of_grows hc hnew (g1.trans (Grows.refl _ []) (fun u hu => List.mem_append_left _ hu)
       (fun u hu => by cases hu))
-  have hn2 : h.id ∉ (encL p (encL p s pre) post).tbl :=
+  have hn2 : h.id ∉ (encL p dn (encL p dn s pre) post).tbl :=
     fresh_of_grows hc hnew (g1.trans g2 (fun u hu => List.mem_append_left _ hu)
       (fun u hu => List.mem_append_right _ hu))
   rw [enc_mk, if_neg (by simpa using hn1)]
   unfold emit
-  simp only [show (encL p (encL p s pre) post).tbl.contains h.id = false by simpa using hn2,
+  simp only [show (encL p dn (encL p dn s pre) post).tbl.contains h.id = false by simpa using hn2,
     Bool.false_eq_true, if_false]
 
-theorem Inv_empty (c : Id → Desc) (p : Proto) : Inv c p {} := fun _ => rfl
+theorem Inv_empty (m : Mode) (c : Id → Desc) (p : Proto) : Inv m c p {} := fun _ => rfl
 
-/-- **round trip**, with the stream position made explicit -/
-theorem decode_encode (p : Proto) (d : Desc) (h : WFDesc p d) :
-    decodeAll p [] (encode p d) = some ((enc p {} d).tbl.map (canon d)) ∧
-    ((enc p {} d).tbl.map (canon d)).getLast? = some d ∧
-    ∀ rest, decodeAll p [] (encode p d ++ rest) = decodeAll p ((enc p {} d).tbl.map (canon d)) rest := by
+/-- the table and the buffer do not depend on `inline_typenames` -/
+theorem emit_core (p : Proto) (dn dn' : Option (Id → Bytes)) (s s' : St) (h : Hdr) (pre post : List Desc)
+    (h1 : s.tbl = s'.tbl) (h2 : s.buf = s'.buf) :
+    (emit p dn s h pre post).tbl = (emit p dn' s' h pre post).tbl ∧
+    (emit p dn s h pre post).buf = (emit p dn' s' h pre post).buf := by
+  unfold emit; simp only [h1, h2, and_self]
+
+mutual
+theorem enc_core (p : Proto) (dn dn' : Option (Id → Bytes)) : ∀ (d : Desc) (s s' : St),
+    s.tbl = s'.tbl → s.buf = s'.buf →
+    (enc p dn s d).tbl = (enc p dn' s' d).tbl ∧ (enc p dn s d).buf = (enc p dn' s' d).buf
+  | .mk h pre post, s, s', h1, h2 => by
+    obtain ⟨a1, a2⟩ := encL_core p dn dn' pre s s' h1 h2
+    rw [enc_mk, enc_mk, a1]
+    split
+    · exact ⟨a1, a2⟩
+    · obtain ⟨b1, b2⟩ := encL_core p dn dn' post _ _ a1 a2
+      exact emit_core p dn dn' _ _ h pre post b1 b2
+theorem encL_core (p : Proto) (dn dn' : Option (Id → Bytes)) : ∀ (ds : List Desc) (s s' : St),
+    s.tbl = s'.tbl → s.buf = s'.buf →
+    (encL p dn s ds).tbl = (encL p dn' s' ds).tbl ∧ (encL p dn s ds).buf = (encL p dn' s' ds).buf
+  | [], s, s', h1, h2 => by rw [encL_nil, encL_nil]; exact ⟨h1, h2⟩
+  | d :: ds, s, s', h1, h2 => by
+    rw [encL_cons, encL_cons]
+    obtain ⟨a1, a2⟩ := enc_core p dn dn' d s s' h1 h2
+    exact encL_core p dn dn' ds _ _ a1 a2
+end
+
+theorem enc_tbl_none (p : Proto) (dn : Option (Id → Bytes)) (d : Desc) :
+    (enc p dn {} d).tbl = (enc p none {} d).tbl := (enc_core p dn none d {} {} rfl rfl).1
+
+theorem enc_buf_none (p : Proto) (dn : Option (Id → Bytes)) (d : Desc) :
+    (enc p dn {} d).buf = encode p d := (enc_core p dn none d {} {} rfl rfl).2
+
+/-- the hypothesis about `SQL_ROW` nodes a decoder needs -/
+def SqlOK (m : Mode) (d : Desc) : Prop := m = .doc ∨ Decodable d
+
+/-- **round trip of the descriptor blocks**, with the stream position made explicit -/
+theorem decode_blocks (m : Mode) (p : Proto) (dn : Option (Id → Bytes)) (d : Desc) (h : WFDesc p d)
+    (hs : SqlOK m d) :
+    ((enc p dn {} d).tbl.map (canon d)).getLast? = some d ∧
+    ∀ rest, decodeAll m p {} ((enc p dn {} d).buf ++ rest) =
+      decodeAll m p ⟨(enc p dn {} d).tbl.map (canon d), []⟩ rest := by
   have hc := canon_spec h.faithful
-  have hinv := enc_inv (canon d) p d {} (Inv_empty _ p) hc h.nodes h.decodable h.fits
-  refine ⟨?_, ?_, hinv⟩
-  · have := hinv []
-    rw [List.append_nil, decodeAll_nil] at this
-    exact this
-  · cases d with | mk hd pre post =>
-    rw [enc_tbl_fresh (canon (.mk hd pre post)) p hd pre post {} hc (by simp),
-      List.map_append, List.map_cons, List.map_nil]
-    simp only [List.getLast?_append, List.getLast?_singleton, Option.some_or]
-    exact congrArg some (hc _ (self_mem_subs _))
+  have hfit : (enc p dn {} d).tbl.length ≤ 65536 := by rw [enc_tbl_none]; exact h.fits
+  have hsql : ∀ u ∈ subs d, m = .doc ∨ ∀ n, u.hdr.kind ≠ .sqlRow n := by
+    intro u hu
+    rcases hs with hs | hs
+    · exact Or.inl hs
+    · exact Or.inr (hs u hu)
+  have hinv := enc_inv m (canon d) p d {} (Inv_empty m _ p) hc h.nodes hsql hfit
+  refine ⟨?_, hinv⟩
+  cases d with | mk hd pre post =>
+  rw [enc_tbl_fresh (canon (.mk hd pre post)) p hd pre post {} hc (by simp),
+    List.map_append, List.map_cons, List.map_nil]
+  simp only [List.getLast?_append, List.getLast?_singleton, Option.some_or]
+  exact congrArg some (hc _ (self_mem_subs _))
 
-theorem roundtrip (p : Proto) (d : Desc) (h : WFDesc p d) : decode p (encode p d) = some d := by
-  obtain ⟨h1, h2, _⟩ := decode_encode p d h
-  unfold decode
-  rw [h1]
-  exact h2
+/-- the annotation blocks, read by the documented-format decoder -/
+theorem parseFlat_annoBlock (p : Proto) (id text rest : Bytes) (hid : id.length = 16)
+    (ht : text.length < 4294967296) :
+    parseFlat .doc p (annoBlock p id text ++ rest) = some (.anno id text, rest) := by
+  cases p with
+  | v1 =>
+    unfold parseFlat annoBlock
+    simp only [u8, List.cons_append, List.nil_append, List.append_assoc]
+    rw [bnd_eq (ret_eq _ _), bnd_eq (rdU8_cons _ _)]
+    simp only [show (128 : Nat) ≤ 255 by decide, if_true]
+    rw [bnd_eq (rdN_append' 16 _ _ hid), bnd_eq (rdStr_str _ _ ht)]
+    rfl
+  | v2 =>
+    unfold parseFlat annoBlock
+    simp only [u8, List.cons_append, List.nil_append, List.append_assoc]
+    rw [bnd_eq (rdN_append' 4 (u32 _) _ rfl), bnd_eq (rdU8_cons _ _)]
+    simp only [show (128 : Nat) ≤ 255 by decide, if_true]
+    rw [bnd_eq (rdN_append' 16 _ _ hid), bnd_eq (rdStr_str _ _ ht)]
+    rfl
 
-end EdbVerif.Desc
+theorem annoBlock_ne_nil (p : Proto) (id text : Bytes) : annoBlock p id text ≠ [] := by
+  cases p <;> simp [annoBlock, u8, u32]
 
-namespace EdbVerif.Desc
+theorem decodeAll_annos (p : Proto) (cl : List Desc) : ∀ (ann an : List (Id × Bytes)) (rest : Bytes),
+    (∀ e ∈ ann, e.1.length = 16 ∧ e.2.length < 4294967296) →
+    decodeAll .doc p ⟨cl, an⟩ (annoBytes p ann ++ rest) = decodeAll .doc p ⟨cl, an ++ ann⟩ rest
+  | [], an, rest, _ => by simp [annoBytes]
+  | e :: ann, an, rest, h => by
+    have he := h e (by simp)
+    have hb : parseBlock .doc p ⟨cl, an⟩ (annoBlock p e.1 e.2 ++ (annoBytes p ann ++ rest)) =
+        some (⟨cl, an ++ [(e.1, e.2)]⟩, annoBytes p ann ++ rest) := by
+      unfold parseBlock
+      rw [parseFlat_annoBlock p e.1 e.2 _ he.1 he.2]
+    have := decodeAll_block hb (annoBlock_ne_nil p e.1 e.2)
+    simp only [annoBytes, List.flatMap_cons, List.append_assoc] at this ⊢
+    rw [this]
+    have ih := decodeAll_annos p cl ann (an ++ [(e.1, e.2)]) rest (fun x hx => h x (by simp [hx]))
+    simp only [annoBytes, List.append_assoc, List.cons_append, List.nil_append] at ih
+    exact ih
+
+/-- the annotations the encoder emits name sub-descriptors of `d` (ids of 16 bytes) -/
+theorem annStep_mem {p : Proto} {f : Id → Bytes} {h : Hdr} {ann : List (Id × Bytes)} {e : Id × Bytes}
+    (he : e ∈ annStep p (some f) h ann) : e ∈ ann ∨ (e = (h.id, f h.id) ∧ annotated p h.kind = true) := by
+  simp only [annStep] at he
+  by_cases hk : annotated p h.kind = true
+  · rw [if_pos hk] at he
+    rcases List.mem_append.mp he with he | he
+    · exact Or.inl he
+    · exact Or.inr ⟨List.mem_singleton.mp he, hk⟩
+  · rw [if_neg hk] at he
+    exact Or.inl he
+
+mutual
+theorem enc_ann (p : Proto) (f : Id → Bytes) : ∀ (d : Desc) (s : St) (e : Id × Bytes),
+    e ∈ (enc p (some f) s d).ann → e ∈ s.ann ∨ ∃ u ∈ subs d, e = (u.id, f u.id) ∧ annotated p u.hdr.kind = true
+  | .mk h pre post, s, e, he => by
+    rw [enc_mk] at he
+    rw [subs_mk]
+    split at he
+    · rcases encL_ann p f pre s e he with h1 | ⟨u, hu, h2⟩
+      · exact Or.inl h1
+      · exact Or.inr ⟨u, List.mem_cons_of_mem _ (List.mem_append_left _ hu), h2⟩
+    · unfold emit at he
+      rcases annStep_mem he with he | ⟨h1, h2⟩
+      · rcases encL_ann p f post _ e he with h1 | ⟨u, hu, h2⟩
+        · rcases encL_ann p f pre s e h1 with h1 | ⟨u, hu, h2⟩
+          · exact Or.inl h1
+          · exact Or.inr ⟨u, List.mem_cons_of_mem _ (List.mem_append_left _ hu), h2⟩
+        · exact Or.inr ⟨u, List.mem_cons_of_mem _ (List.mem_append_right _ hu), h2⟩
+      · exact Or.inr ⟨.mk h pre post, List.mem_cons_self, h1, h2⟩
+theorem encL_ann (p : Proto) (f : Id → Bytes) : ∀ (ds : List Desc) (s : St) (e : Id × Bytes),
+    e ∈ (encL p (some f) s ds).ann → e ∈ s.ann ∨ ∃ u ∈ subsL ds, e = (u.id, f u.id) ∧ annotated p u.hdr.kind = true
+  | [], s, e, he => by rw [encL_nil] at he; exact Or.inl he
+  | d :: ds, s, e, he => by
+    rw [encL_cons] at he
+    rw [subsL]
+    rcases encL_ann p f ds _ e he with h1 | ⟨u, hu, h2⟩
+    · rcases enc_ann p f d s e h1 with h1 | ⟨u, hu, h2⟩
+      · exact Or.inl h1
+      · exact Or.inr ⟨u, List.mem_append_left _ hu, h2⟩
+    · exact Or.inr ⟨u, List.mem_append_right _ hu, h2⟩
+end
+
+mutual
+theorem enc_ann_none' (p : Proto) : ∀ (d : Desc) (s : St), s.ann = [] → (enc p none s d).ann = []
+  | .mk h pre post, s, hs => by
+    rw [enc_mk]
+    split
+    · exact encL_ann_none' p pre s hs
+    · unfold emit annStep
+      exact encL_ann_none' p post _ (encL_ann_none' p pre s hs)
+theorem encL_ann_none' (p : Proto) : ∀ (ds : List Desc) (s : St), s.ann = [] → (encL p none s ds).ann = []
+  | [], s, hs => by rw [encL_nil]; exact hs
+  | d :: ds, s, hs => by rw [encL_cons]; exact encL_ann_none' p ds _ (enc_ann_none' p d s hs)
+end
+
+theorem enc_ann_none (p : Proto) (d : Desc) : (enc p none {} d).ann = [] := enc_ann_none' p d {} rfl
 
 /-! ### de-duplication: one registration per id, every sub-descriptor registered -/
 
 theorem emit_nodup (p : Proto) (s : St) (h : Hdr) (pre post : List Desc) (hn : s.tbl.Nodup) :
-    (emit p s h pre post).tbl.Nodup := by
+    (emit p dn s h pre post).tbl.Nodup := by
   unfold emit
   dsimp only
   split
@@ -468,13 +605,13 @@ theorem emit_nodup (p : Proto) (s : St) (h : Hdr) (pre post : List Desc) (hn : s
       intro a ha b hb; rw [List.mem_singleton.mp hb]; intro hab; exact this (hab ▸ ha)⟩
 
 mutual
-theorem enc_nodup (p : Proto) : ∀ (d : Desc) (s : St), s.tbl.Nodup → (enc p s d).tbl.Nodup
+theorem enc_nodup (p : Proto) : ∀ (d : Desc) (s : St), s.tbl.Nodup → (enc p dn s d).tbl.Nodup
   | .mk h pre post, s, hn => by
     rw [enc_mk]
     split
     · exact encL_nodup p pre s hn
     · exact emit_nodup p _ h pre post (encL_nodup p post _ (encL_nodup p pre s hn))
-theorem encL_nodup (p : Proto) : ∀ (ds : List Desc) (s : St), s.tbl.Nodup → (encL p s ds).tbl.Nodup
+theorem encL_nodup (p : Proto) : ∀ (ds : List Desc) (s : St), s.tbl.Nodup → (encL p dn s ds).tbl.Nodup
   | [], s, hn => by rw [encL_nil]; exact hn
   | d :: ds, s, hn => by rw [encL_cons]; exact encL_nodup p ds _ (enc_nodup p d s hn)
 end
@@ -485,7 +622,7 @@ def Closed (c : Id → Desc) (tbl : List Id) : Prop := ∀ i ∈ tbl, ∀ u ∈ 
 mutual
 theorem enc_covers (c : Id → Desc) (p : Proto) : ∀ (d : Desc) (s : St), Closed c s.tbl →
     (∀ u ∈ subs d, c u.id = u) →
-    Closed c (enc p s d).tbl ∧ ∀ u ∈ subs d, u.id ∈ (enc p s d).tbl
+    Closed c (enc p dn s d).tbl ∧ ∀ u ∈ subs d, u.id ∈ (enc p dn s d).tbl
   | .mk h pre post, s, hcl, hc => by
     have hc' := hc
     rw [subs_mk] at hc
@@ -496,14 +633,14 @@ theorem enc_covers (c : Id → Desc) (p : Proto) : ∀ (d : Desc) (s : St), Clos
     split
     · rename_i hcont
       refine ⟨cl1, ?_⟩
-      have hmem : h.id ∈ (encL p s pre).tbl := by simpa using hcont
+      have hmem : h.id ∈ (encL p dn s pre).tbl := by simpa using hcont
       intro u hu
       have := cl1 h.id hmem u (by rw [hself]; exact hu)
       exact this
     · obtain ⟨cl2, cov2⟩ := encL_covers c p post _ cl1
         (fun u hu => hc u (List.mem_cons_of_mem _ (List.mem_append_right _ hu)))
-      have g2 := encL_grows p post (encL p s pre)
-      have hsub : ∀ t, (encL p (encL p s pre) post).tbl ⊆ t →
+      have g2 := encL_grows (dn := dn) p post (encL p dn s pre)
+      have hsub : ∀ t, (encL p dn (encL p dn s pre) post).tbl ⊆ t →
           h.id ∈ t → (∀ u ∈ subs (.mk h pre post), u.id ∈ t) := by
         intro t ht hh u hu
         rw [subs_mk] at hu
@@ -516,9 +653,9 @@ theorem enc_covers (c : Id → Desc) (p : Proto) : ∀ (d : Desc) (s : St), Clos
       dsimp only
       split
       · rename_i hcont
-        have hmem : h.id ∈ (encL p (encL p s pre) post).tbl := by simpa using hcont
+        have hmem : h.id ∈ (encL p dn (encL p dn s pre) post).tbl := by simpa using hcont
         exact ⟨cl2, hsub _ (fun _ h => h) hmem⟩
-      · have hall := hsub ((encL p (encL p s pre) post).tbl ++ [h.id])
+      · have hall := hsub ((encL p dn (encL p dn s pre) post).tbl ++ [h.id])
           (fun _ h => List.mem_append_left _ h) (by simp)
         refine ⟨?_, hall⟩
         intro i hi u hu
@@ -528,7 +665,7 @@ theorem enc_covers (c : Id → Desc) (p : Proto) : ∀ (d : Desc) (s : St), Clos
           exact hall u hu
 theorem encL_covers (c : Id → Desc) (p : Proto) : ∀ (ds : List Desc) (s : St), Closed c s.tbl →
     (∀ u ∈ subsL ds, c u.id = u) →
-    Closed c (encL p s ds).tbl ∧ ∀ u ∈ subsL ds, u.id ∈ (encL p s ds).tbl
+    Closed c (encL p dn s ds).tbl ∧ ∀ u ∈ subsL ds, u.id ∈ (encL p dn s ds).tbl
   | [], s, hcl, _ => by rw [encL_nil]; exact ⟨hcl, fun u hu => by simp [subsL] at hu⟩
   | d :: ds, s, hcl, hc => by
     rw [subsL] at hc
@@ -538,16 +675,16 @@ theorem encL_covers (c : Id → Desc) (p : Proto) : ∀ (ds : List Desc) (s : St
     refine ⟨cl2, ?_⟩
     intro u hu
     rcases List.mem_append.mp hu with hu | hu
-    · exact (encL_grows p ds _).mem (cov1 u hu)
+    · exact (encL_grows (dn := dn) p ds _).mem (cov1 u hu)
     · exact cov2 u hu
 end
 
 /-- **de-duplication**: the table lists every distinct sub-descriptor id exactly once -/
 theorem dedupe (p : Proto) (d : Desc) (hf : IdFaithful d) :
-    (enc p {} d).tbl.Nodup ∧ ∀ i, i ∈ (enc p {} d).tbl ↔ ∃ u ∈ subs d, u.id = i := by
+    (enc p dn {} d).tbl.Nodup ∧ ∀ i, i ∈ (enc p dn {} d).tbl ↔ ∃ u ∈ subs d, u.id = i := by
   refine ⟨enc_nodup p d {} List.nodup_nil, fun i => ⟨?_, ?_⟩⟩
   · intro hi
-    obtain ⟨ext, hext, hsub⟩ := enc_grows p d {}
+    obtain ⟨ext, hext, hsub⟩ := enc_grows (dn := dn) p d {}
     rw [hext] at hi
     exact hsub i (by simpa using hi)
   · rintro ⟨u, hu, rfl⟩
@@ -556,19 +693,89 @@ theorem dedupe (p : Proto) (d : Desc) (hf : IdFaithful d) :
 end EdbVerif.Desc
 
 namespace EdbVerif.Desc
+variable {dn : Option (Id → Bytes)}
+
+mutual
+theorem nodesOK_of_mem_subs {p : Proto} : ∀ {d u : Desc}, nodesOK p d = true → u ∈ subs d → nodesOK p u = true
+  | .mk h pre post, u, hn, hu => by
+    rw [subs_mk] at hu
+    obtain ⟨_, h1, h2⟩ := nodesOK_mk hn
+    rcases List.mem_cons.mp hu with rfl | hu
+    · exact hn
+    · rcases List.mem_append.mp hu with hu | hu
+      · exact nodesOKL_of_mem_subsL h1 hu
+      · exact nodesOKL_of_mem_subsL h2 hu
+theorem nodesOKL_of_mem_subsL {p : Proto} : ∀ {ds : List Desc} {u : Desc}, nodesOKL p ds = true → u ∈ subsL ds →
+    nodesOK p u = true
+  | [], u, _, hu => by simp [subsL] at hu
+  | d :: ds, u, hn, hu => by
+    rw [subsL] at hu
+    obtain ⟨h1, h2⟩ := nodesOKL_cons hn
+    rcases List.mem_append.mp hu with hu | hu
+    · exact nodesOK_of_mem_subs h1 hu
+    · exact nodesOKL_of_mem_subsL h2 hu
+end
 
 theorem map_id_of_forall {f : Id → Id} : ∀ (l : List Id), (∀ i ∈ l, f i = i) → l.map f = l
   | [], _ => rfl
   | a :: l, h => by
     rw [List.map_cons, h a (by simp), map_id_of_forall l (fun i hi => h i (by simp [hi]))]
 
+/-- **round trip for a client following the documented format**: every stream the
+    encoder emits (with or without `inline_typenames`, any node kind incl. `SQL_ROW`)
+    decodes to the descriptor and to exactly the annotations that were emitted. -/
+theorem roundtrip_doc (p : Proto) (dn : Option (Id → Bytes)) (d : Desc) (h : WFDesc p d)
+    (hdn : ∀ f, dn = some f → ∀ i, (f i).length < 4294967296) :
+    decodeDoc p (encodeA p dn d) = some (d, (enc p dn {} d).ann) := by
+  obtain ⟨h1, h2⟩ := decode_blocks .doc p dn d h (Or.inl rfl)
+  have hann : ∀ e ∈ (enc p dn {} d).ann, e.1.length = 16 ∧ e.2.length < 4294967296 := by
+    intro e he
+    cases dn with
+    | none => rw [enc_ann_none] at he; cases he
+    | some f =>
+      rcases enc_ann p f d {} e he with h0 | ⟨u, hu, rfl, _⟩
+      · cases h0
+      · refine ⟨?_, hdn f rfl _⟩
+        have hn := nodesOK_of_mem_subs h.nodes hu
+        cases u with | mk hh a b =>
+        exact hdrOK_id (nodesOK_mk hn).1
+  have h3 := decodeAll_annos p ((enc p dn {} d).tbl.map (canon d)) (enc p dn {} d).ann [] [] hann
+  rw [List.append_nil, List.nil_append, decodeAll_nil] at h3
+  unfold decodeDoc encodeA
+  rw [h2, h3]
+  simp only [h1]
+
+/-- **round trip for the model of `sertypes.parse`** on annotation-free streams
+    without `SQL_ROW` descriptors (the streams it is specified for) -/
+theorem roundtrip (p : Proto) (d : Desc) (h : WFDesc p d) (hd : Decodable d) :
+    decodeReal p (encode p d) = some d := by
+  obtain ⟨h1, h2⟩ := decode_blocks .real p none d h (Or.inr hd)
+  have := h2 []
+  rw [List.append_nil, decodeAll_nil] at this
+  unfold decodeReal encode
+  rw [this]
+  exact h1
+
+/-- decoding consumes exactly the encoded bytes (both decoders) -/
+theorem decode_prefix (m : Mode) (p : Proto) (d : Desc) (h : WFDesc p d) (hs : SqlOK m d) :
+    ∃ cl, decodeAll m p {} (encode p d) = some ⟨cl, []⟩ ∧ cl.getLast? = some d ∧
+      ∀ rest, decodeAll m p {} (encode p d ++ rest) = decodeAll m p ⟨cl, []⟩ rest := by
+  obtain ⟨h1, h2⟩ := decode_blocks m p none d h hs
+  refine ⟨_, ?_, h1, h2⟩
+  have := h2 []
+  rw [List.append_nil, decodeAll_nil] at this
+  exact this
+
 /-- de-duplication, with the decoded stream -/
-theorem dedupe_full (p : Proto) (d : Desc) (h : WFDesc p d) :
-    (enc p {} d).tbl.Nodup ∧ (∀ i, i ∈ (enc p {} d).tbl ↔ ∃ u ∈ subs d, u.id = i) ∧
-    ∃ cl, decodeAll p [] (encode p d) = some cl ∧ cl.map Desc.id = (enc p {} d).tbl ∧
-      ∀ u ∈ subs d, cl[pos (enc p {} d).tbl u.id]? = some u := by
-  obtain ⟨hn, hm⟩ := dedupe p d h.faithful
-  refine ⟨hn, hm, _, (decode_encode p d h).1, ?_, ?_⟩
+theorem dedupe_full (m : Mode) (p : Proto) (d : Desc) (h : WFDesc p d) (hs : SqlOK m d) :
+    (enc p none {} d).tbl.Nodup ∧ (∀ i, i ∈ (enc p none {} d).tbl ↔ ∃ u ∈ subs d, u.id = i) ∧
+    ∃ cl, decodeAll m p {} (encode p d) = some ⟨cl, []⟩ ∧ cl.map Desc.id = (enc p none {} d).tbl ∧
+      ∀ u ∈ subs d, cl[pos (enc p none {} d).tbl u.id]? = some u := by
+  obtain ⟨hn, hm⟩ := dedupe (dn := none) p d h.faithful
+  obtain ⟨_, h2⟩ := decode_blocks m p none d h hs
+  have h3 := h2 []
+  rw [List.append_nil, decodeAll_nil] at h3
+  refine ⟨hn, hm, _, h3, ?_, ?_⟩
   · rw [List.map_map]
     apply map_id_of_forall
     intro i hi
@@ -577,29 +784,33 @@ theorem dedupe_full (p : Proto) (d : Desc) (h : WFDesc p d) :
   · intro u hu
     rw [getElem?_map_idxOf _ _ _ ((hm u.id).mpr ⟨u, hu, rfl⟩), canon_spec h.faithful u hu]
 
-end EdbVerif.Desc
-
-namespace EdbVerif.Desc
-
-theorem parseFlat_anno (id text rest : Bytes) : parseFlat .v1 (annoBlock .v1 id text ++ rest) = none := by
+theorem parseFlat_anno_real (id text rest : Bytes) :
+    parseFlat .real .v1 (annoBlock .v1 id text ++ rest) = none := by
   unfold parseFlat annoBlock
   simp only [u8, List.cons_append, List.nil_append, List.append_assoc]
   rw [bnd_eq (ret_eq _ _), bnd_eq (rdU8_cons _ _)]
   rfl
 
-/-- what `describe(inline_typenames=True)` emits below protocol 2.0 for a type
-    with a derived scalar / enum is rejected by `parse` -/
-theorem anno_rejected (d : Desc) (h : WFDesc .v1 d) (id text : Bytes) :
-    decode .v1 (encode .v1 d ++ annoBlock .v1 id text) = none := by
-  unfold decode
-  rw [(decode_encode .v1 d h).2.2, decodeAll]
-  have hne : (annoBlock .v1 id text).isEmpty = false := rfl
-  have hp : parseBlock .v1 (List.map (canon d) (enc .v1 {} d).tbl) (annoBlock .v1 id text) = none := by
-    unfold parseBlock
-    have := parseFlat_anno id text []
-    rw [List.append_nil] at this
-    rw [this]
-  simp only [hne, Bool.false_eq_true, if_false, hp]
+/-- the model of the REAL `parse` rejects what `describe(inline_typenames=True)`
+    emits below protocol 2.0 as soon as there is one annotation -/
+theorem anno_rejected (f : Id → Bytes) (d : Desc) (h : WFDesc .v1 d) (hd : Decodable d)
+    (hne : (enc .v1 (some f) {} d).ann ≠ []) :
+    decodeReal .v1 (encodeA .v1 (some f) d) = none := by
+  obtain ⟨_, h2⟩ := decode_blocks .real .v1 (some f) d h (Or.inr hd)
+  unfold decodeReal encodeA
+  rw [h2]
+  cases hann : (enc .v1 (some f) {} d).ann with
+  | nil => exact absurd hann hne
+  | cons e es =>
+    rw [decodeAll]
+    have hne' : (annoBytes .v1 (e :: es)).isEmpty = false := by
+      simp only [annoBytes, List.flatMap_cons, annoBlock, u8]; rfl
+    have hp : parseBlock .real .v1 ⟨List.map (canon d) (enc .v1 (some f) {} d).tbl, []⟩
+        (annoBytes .v1 (e :: es)) = none := by
+      unfold parseBlock
+      simp only [annoBytes, List.flatMap_cons]
+      rw [parseFlat_anno_real]
+    simp only [hne', Bool.false_eq_true, if_false, hp]
 
 /-! ### a concrete well-formed tree (non-vacuity) -/
 
@@ -619,10 +830,36 @@ theorem exTuple_wf : WFDesc .v2 exTuple where
       List.not_mem_nil, or_false, List.append_nil] at hu hv
     rcases hu with rfl | rfl | rfl | rfl <;> rcases hv with rfl | rfl | rfl | rfl <;>
       first | rfl | (exfalso; revert h; decide)
-  decodable := by
-    intro u hu n
-    simp only [exTuple, exI64, exStr, subs, subsL, List.cons_append, List.nil_append, List.mem_cons,
-      List.not_mem_nil, or_false, List.append_nil] at hu
-    rcases hu with rfl | rfl | rfl | rfl <;> simp [Desc.hdr]
+
+theorem exTuple_decodable : Decodable exTuple := by
+  intro u hu n
+  simp only [exTuple, exI64, exStr, subs, subsL, List.cons_append, List.nil_append, List.mem_cons,
+    List.not_mem_nil, or_false, List.append_nil] at hu
+  rcases hu with rfl | rfl | rfl | rfl <;> simp [Desc.hdr]
+
+end EdbVerif.Desc
+
+namespace EdbVerif.Desc
+
+/-- `scalar myint extending int64` below protocol 2.0 -/
+def exDerived : Desc :=
+  .mk ⟨.scalar, [9,9,9,9,9,9,9,9,9,9,9,9,9,9,9,9], none⟩ []
+    [.mk ⟨.baseScalar, [0,0,0,0,0,0,0,0,0,0,0,0,0,0,1,5], none⟩ [] []]
+
+theorem exDerived_wf : WFDesc .v1 exDerived where
+  nodes := by decide
+  fits := by decide
+  faithful := by
+    intro u hu v hv h
+    simp only [exDerived, subs, subsL, List.cons_append, List.nil_append, List.mem_cons,
+      List.not_mem_nil, or_false, List.append_nil] at hu hv
+    rcases hu with rfl | rfl <;> rcases hv with rfl | rfl <;>
+      first | rfl | (exfalso; revert h; decide)
+
+theorem exDerived_decodable : Decodable exDerived := by
+  intro u hu n
+  simp only [exDerived, subs, subsL, List.cons_append, List.nil_append, List.mem_cons,
+    List.not_mem_nil, or_false, List.append_nil] at hu
+  rcases hu with rfl | rfl <;> simp [Desc.hdr]
 
 end EdbVerif.Desc
